@@ -1,4 +1,5 @@
 #![allow(dead_code)]
+mod alloc;
 mod cap;
 mod cmd;
 mod props;
@@ -21,6 +22,8 @@ macro_rules! with_check {
             "C07" => { let $c: &'static props::cmdprops::CmdCheck = &props::cmdprops::C07; $body }
             "C08" => { let $c: &'static thr::ThrCheck = &thr::C08; $body }
             "C09" => { let $c: &'static props::cmdprops::CmdCheck = &props::cmdprops::C09; $body }
+            "C11" => { let $c: &'static props::c11::C11Check = &props::c11::C11; $body }
+            "C12" => { let $c: &'static props::c12::C12Check = &props::c12::C12; $body }
             "C13" => { let $c: &'static props::cmdprops::CmdCheck = &props::cmdprops::C13; $body }
             "C15" => { let $c: &'static cap::http::Http15 = &cap::http::C15; $body }
             "C16" => { let $c: &'static cap::http::Http16 = &cap::http::C16; $body }
@@ -30,6 +33,9 @@ macro_rules! with_check {
         }
     }};
 }
+
+#[global_allocator]
+static GLOBAL: alloc::Counting = alloc::Counting;
 
 fn main() {
     runner::install_panic_hook();
@@ -67,6 +73,11 @@ fn main() {
                 i += 2;
             }
             with_check!(id.as_str(), c => runner::replay(c, &path, &known))
+        }
+        Some("c11-digest") => {
+            let path = args.get(2).cloned().unwrap_or_default();
+            let seed: u64 = args.get(3).and_then(|s| s.parse().ok()).unwrap_or(0);
+            props::c11::digest_main(&path, seed)
         }
         Some("selftest-determinism") => {
             let id = args.get(2).cloned().unwrap_or_default();
